@@ -70,7 +70,8 @@ end StyluaModel.Punct
 
 /-
 Model of the trivia handling when format_function_args changes the form of a single-argument call
-(/repo/src/formatters/functions.rs 370-412 parentheses dropped, 487-528 parentheses added; string argument):
+(/repo/src/formatters/functions.rs 370-412 parentheses dropped, 487-528 / 531-560 parentheses added; a string argument,
+or a table constructor, whose first and last token then carry the trivia):
   * `f("x")` → `f "x"`: the argument token keeps its own trivia and receives the *trailing* trivia of `)`; the
     trivia in front of `(`, behind `(` and in front of `)` is not carried over;
   * `f "x"` → `f("x")`: the formatted argument's trailing comments are moved behind a fresh `)`.
